@@ -15,7 +15,8 @@ type Seed struct {
 	Name  string
 	Text  string
 	Files map[string]string
-	Tier  int // 0 = quick and thorough, 1 = thorough only
+	Tier  int  // 0 = quick and thorough, 1 = thorough only, 2 = generated board trees (thorough tier of C41 only)
+	Deep  bool // generated board trees: also expanded at depth 2 (trees of two boards)
 }
 
 var Seeds = []Seed{
@@ -206,7 +207,13 @@ func boardTreeSeeds() []Seed {
 			}
 			sb.WriteString("}\n")
 		}
-		out = append(out, Seed{Name: "boards:" + name, Text: sb.String(), Tier: 2})
+		nb := len(bs)
+		for _, b := range bs {
+			if b.child >= 0 {
+				nb++
+			}
+		}
+		out = append(out, Seed{Name: "boards:" + name, Text: sb.String(), Tier: 2, Deep: nb <= 2})
 	}
 	for k1 := 0; k1 < 3; k1++ {
 		for c := 0; c < 3; c++ {
